@@ -337,6 +337,10 @@ pub struct BCfg {
     /// build the filter incrementally: parse the static part, `add_directive` the span-scoped one
     #[serde(default)]
     pub via_add: bool,
+    /// the filter is attached to the observing layer with `with_filter` (the `Filter` impl)
+    /// instead of being installed as a layer of its own (the `Subscribe` impl)
+    #[serde(default)]
+    pub per_layer: bool,
 }
 
 #[derive(Clone, Debug, Serialize, Deserialize, Default)]
@@ -457,7 +461,12 @@ fn b_run_history(cfg: &BCfg, history: &[String]) -> (String, Vec<String>, Vec<St
     } else {
         EnvFilter::new(&cfg.directives)
     };
-    let d = Dispatch::new(Registry::default().with(filter).with(FL { id: 1 }));
+    let d = if cfg.per_layer {
+        use tracing_subscriber::Subscribe as _;
+        Dispatch::new(Registry::default().with(FL { id: 1 }.with_filter(filter)))
+    } else {
+        Dispatch::new(Registry::default().with(filter).with(FL { id: 1 }))
+    };
     let spans = bspans();
     let events = b_events();
     // end-of-history probes: every event once more after the last step, so that a state the
@@ -525,7 +534,9 @@ fn b_run_history(cfg: &BCfg, history: &[String]) -> (String, Vec<String>, Vec<St
                     let cared = cared && s.level <= cfg.dyn_level;
                     let want = cared || static_ok(s.level) || raised;
                     let sp = (s.open)(v);
-                    let got = !sp.is_disabled();
+                    // (behind a per-layer filter the span always exists in the registry: enabled means
+                    // that the filtered layer was told about it)
+                    let got = if cfg.per_layer { stack::flog_since(n0).iter().any(|e| e.kind == "new_span") } else { !sp.is_disabled() };
                     let mut visible = got;
                     if got != want {
                         let want_impl = cared || static_ok(s.level) || raised_impl;
@@ -662,6 +673,7 @@ pub fn b_configs(depth: usize, f18_open: bool) -> Vec<BCfg> {
         f18_open,
         f16_open: false,
         via_add: false,
+        per_layer: false,
     };
     let v = vec![
         mk("[sp]=debug", None, Some("sp"), None, None, 4, None),
@@ -676,6 +688,8 @@ pub fn b_configs(depth: usize, f18_open: bool) -> Vec<BCfg> {
     let mut v = v;
     let added: Vec<BCfg> = v.iter().filter(|c| c.static_default.is_some()).map(|c| BCfg { via_add: true, ..c.clone() }).collect();
     v.extend(added);
+    let per_layer: Vec<BCfg> = v.iter().filter(|c| !c.via_add).map(|c| BCfg { per_layer: true, ..c.clone() }).collect();
+    v.extend(per_layer);
     v
 }
 
